@@ -34,6 +34,8 @@ struct Row {
     obs: String,
     fresh: bool,
     tls: bool,
+    /// certificate / key paths present (independently of `tls.enabled`); default: as `tls`
+    certs: bool,
     host: String,
     hhost: Option<String>,
 }
@@ -47,7 +49,7 @@ fn toml_of(r: &Row) -> String {
         t += &format!("http_host = {}\n", q(h));
     }
     t += &format!("[server.tls]\nenabled = {}\n", r.tls);
-    if r.tls {
+    if r.certs {
         t += "cert_path = \"c.pem\"\nkey_path = \"k.pem\"\n";
     }
     t += &format!("[auth]\nenabled = {}\napi_keys_file = \"keys.yaml\"\n", r.auth);
@@ -69,7 +71,7 @@ fn yaml_of(r: &Row) -> String {
         t += &format!("  http_host: {}\n", q(h));
     }
     t += &format!("  tls:\n    enabled: {}\n", r.tls);
-    if r.tls {
+    if r.certs {
         t += "    cert_path: \"c.pem\"\n    key_path: \"k.pem\"\n";
     }
     t += &format!("auth:\n  enabled: {}\n  api_keys_file: \"keys.yaml\"\n", r.auth);
@@ -97,7 +99,7 @@ fn set_env(r: &Row) {
     std::env::set_var("KYRODB__RATE_LIMIT__ENABLED", r.rl.to_string());
     std::env::set_var("KYRODB__SERVER__OBSERVABILITY_AUTH", &r.obs);
     std::env::set_var("KYRODB__SERVER__TLS__ENABLED", r.tls.to_string());
-    if r.tls {
+    if r.certs {
         std::env::set_var("KYRODB__SERVER__TLS__CERT_PATH", "c.pem");
         std::env::set_var("KYRODB__SERVER__TLS__KEY_PATH", "k.pem");
     }
@@ -143,6 +145,7 @@ pub fn step(line: &str, scratch: &PathBuf) -> (String, String) {
         obs,
         fresh: boolean(&fs, "fresh").unwrap_or(false),
         tls: boolean(&fs, "tls").unwrap_or(false),
+        certs: boolean(&fs, "certs").unwrap_or(boolean(&fs, "tls").unwrap_or(false)),
         host,
         hhost: get("hhost").filter(|h| h != "-").and_then(|h| unhex(&h)),
     };
@@ -159,6 +162,7 @@ pub fn step(line: &str, scratch: &PathBuf) -> (String, String) {
         obs: "all".into(),
         fresh: false,
         tls: false,
+        certs: false,
         host: "127.0.0.1".into(),
         hhost: None,
     };
